@@ -5,7 +5,7 @@
 //!  * `render`   — `BashRunner` with shell `/bin/cat` returns the rendered template byte for byte
 //!  * `crlf`, `rout` — `replace_crlf`, `TestCase::render_output`
 //!  * `execall`  — `BashScriptExecutor` with a replay "shell" that ignores the script and writes prepared
-//!                 byte streams: drives the private `iterate_divided_output`/`parse_divider_bytes`
+//!                 byte streams: drives the private `iterate_divided_output`/`parse_salted_divider_bytes` (the shell re-salts the streams)
 //!  * `compile`  — `BashScriptExecutor` with a capture "shell" that stores the script it is handed
 //!  * `rmdiv`    — the timeout path (`remove_dividers_from_output`) through a replay shell that sleeps
 //!  * `bash`     — real bash through `StatefulExecutor(BashRunner)` and `BashScriptExecutor`; payload
@@ -32,6 +32,8 @@ const PREFIX: &[u8] = b"~~~~~~~~EXECDIVIDER::";
 const PLACEHOLDERS: [&str; 5] = ["{state_directory}", "{name}", "{excluded_variables}", "{persist_state}", "{shell_expression}"];
 const SENTINEL: &str = "\u{1}SENTINEL\u{2}";
 const BASH: &str = "/bin/bash";
+/// salt the generated streams are written with (the replay shell substitutes the real one)
+const GEN_SALT: &str = "SALTsalt0123456789ab";
 
 /// helper "shells" written once, before any thread forks (no ETXTBSY)
 pub struct Env {
@@ -57,7 +59,26 @@ impl Env {
             p
         };
         // all of them run with cwd = the case's work directory
-        let replay = mk("replay.sh", "#!/bin/sh\ncat >/dev/null\ncat ./out\ncat ./err >&2\nexit \"$(cat ./code)\"\n");
+        // the replay shell learns the salt of this execution from the script it is handed (divider echo of test 0)
+        // and writes the prepared streams with the generator's salt (./oldsalt) replaced by it
+        let replay = mk(
+            "replay.sh",
+            concat!(
+                "#!/bin/sh\n",
+                "script=$(cat)\n",
+                "new=$(printf '%s\\n' \"$script\" | sed -n 's/^echo \"~~~~~~~~EXECDIVIDER::\\([A-Za-z0-9]*\\)::0::.*$/\\1/p' | head -n 1)\n",
+                "old=$(cat ./oldsalt)\n",
+                "if [ -n \"$new\" ]; then\n",
+                "  printf '%s' \"$new\" > ./salt\n",
+                "  LC_ALL=C sed \"s/$old/$new/g\" ./out\n",
+                "  LC_ALL=C sed \"s/$old/$new/g\" ./err >&2\n",
+                "else\n",
+                "  cat ./out\n",
+                "  cat ./err >&2\n",
+                "fi\n",
+                "exit \"$(cat ./code)\"\n"
+            ),
+        );
         let replay_sleep = mk("replay_sleep.sh", "#!/bin/sh\ncat >/dev/null\ncat ./out\ncat ./err >&2\nexec sleep 5\n");
         let capture = mk("capture.sh", "#!/bin/sh\ncat > ./script\n");
         let capture_detached = mk("capture_detached.sh", "#!/bin/sh\ncat > ./cap.tmp && mv ./cap.tmp ./cap\n");
@@ -279,24 +300,62 @@ fn script_config(combined: bool, keep: Option<bool>, skip: i32) -> TestCaseConfi
 
 // ───────────────────────────── execall (replay shell) ─────────────────────────────
 
-fn eval_execall(env: &Env, op: &str, f: &[&str]) -> CaseRec {
+fn replace_bytes(hay: &[u8], from: &[u8], to: &[u8]) -> Vec<u8> {
+    if from.is_empty() {
+        return hay.to_vec();
+    }
+    let mut out = Vec::with_capacity(hay.len());
+    let mut i = 0;
+    while i < hay.len() {
+        if hay[i..].starts_with(from) {
+            out.extend_from_slice(to);
+            i += from.len();
+        } else {
+            out.push(hay[i]);
+            i += 1;
+        }
+    }
+    out
+}
+
+/// `execall <n> <combined> <skip> <scriptExit> <salt> <stdout> <stderr>`: the salt in the op is the one the
+/// streams were written with; the execution draws its own, the replay shell re-salts the streams, and the
+/// case is reported with the salt and streams of this run
+fn eval_execall(env: &Env, _op: &str, f: &[&str]) -> CaseRec {
     let n: usize = f[1].parse().unwrap();
     let combined = f[2] == "1";
     let skip: i32 = f[3].parse().unwrap();
     let script_exit: i32 = f[4].parse().unwrap();
-    let (so, se) = (unhex(f[5]), unhex(f[6]));
+    let old_salt = unhex(f[5]);
+    let (so, se) = (unhex(f[6]), unhex(f[7]));
     let dir = case_dir();
     std::fs::write(dir.path().join("out"), &so).unwrap();
     std::fs::write(dir.path().join("err"), &se).unwrap();
+    std::fs::write(dir.path().join("oldsalt"), &old_salt).unwrap();
     std::fs::write(dir.path().join("code"), script_exit.to_string()).unwrap();
     let ctx = context(dir.path(), None);
     let tcs: Vec<TestCase> = (0..n).map(|_| testcase("true", script_config(combined, Some(true), skip))).collect();
     let refs: Vec<&TestCase> = tcs.iter().collect();
     let res = guarded(|| BashScriptExecutor::new(&env.replay).execute_all(&refs, &ctx));
     let out = show_result(&res);
+    // without test cases the script holds no divider: the salt stays unknown to the shell (and to us);
+    // any salt that is not in the streams stands for it
+    let (salt, so, se) = match std::fs::read(dir.path().join("salt")) {
+        Ok(new) if !new.is_empty() => (new.clone(), replace_bytes(&so, &old_salt, &new), replace_bytes(&se, &old_salt, &new)),
+        _ => (b"00000000000000000000".to_vec(), so, se),
+    };
+    let op = format!("execall {n} {} {skip} {script_exit} {} {} {}", f[2], hex(&salt), hex(&so), hex(&se));
     let kind = out.split(' ').next().unwrap_or("").to_string();
-    let dividers = so.windows(PREFIX.len()).filter(|w| *w == PREFIX).count();
-    CaseRec { op: op.to_string(), impl_out: out, oracle_fail: vec![], nontrivial: dividers >= 1, tags: vec![format!("execall:{kind}"), format!("execall:n={n}"), format!("execall:combined={combined}")] }
+    let needle = [PREFIX, &salt[..], b"::"].concat();
+    let dividers = so.windows(needle.len()).filter(|w| *w == &needle[..]).count();
+    let foreign = so.windows(PREFIX.len()).filter(|w| *w == PREFIX).count() - dividers;
+    CaseRec {
+        op,
+        impl_out: out,
+        oracle_fail: vec![],
+        nontrivial: dividers >= 1,
+        tags: vec![format!("execall:{kind}"), format!("execall:n={n}"), format!("execall:combined={combined}"), format!("execall:foreign-prefixes={}", foreign.min(3))],
+    }
 }
 
 // ───────────────────────────── rmdiv (timeout path) ─────────────────────────────
@@ -586,7 +645,7 @@ fn eval_op(env: &Env, op: &str) -> CaseRec {
         ("render", 7) => eval_render(env, op, &f),
         ("crlf", 2) => eval_crlf(op, &f),
         ("rout", 4) => eval_rout(op, &f),
-        ("execall", 7) => eval_execall(env, op, &f),
+        ("execall", 8) => eval_execall(env, op, &f),
         ("rmdiv", 2) => eval_rmdiv(env, op, &f),
         ("compile", 5) => eval_compile(env, op, &f),
         ("bash", 6) => eval_bash(op, &f),
@@ -655,7 +714,7 @@ fn gen_stream(r: &mut Rng, n: usize, wild: bool) -> Vec<u8> {
         } else {
             r.pick(&["0", "1", "2", "80", "7", "255", "127"]).to_string()
         };
-        let salt = if wild && r.chance(1, 6) { r.pick(&["", ":", "a:b", "S::T", "~~~~~~~~EXECDIVIDER"]).to_string() } else { "SALTsalt0123456789ab".to_string() };
+        let salt = if wild && r.chance(1, 6) { r.pick(&["", ":", "a:b", "S::T", "~~~~~~~~EXECDIVIDER", "X", "SALTsalt0123456789a", "SALTsalt0123456789abc"]).to_string() } else { GEN_SALT.to_string() };
         let mut d = divider(&salt, &idx, &code);
         if wild && r.chance(1, 8) {
             d.pop(); // unterminated divider line
@@ -668,6 +727,10 @@ fn gen_stream(r: &mut Rng, n: usize, wild: bool) -> Vec<u8> {
         }
         if wild && r.chance(1, 10) {
             d.extend_from_slice(b"\n"); // extra empty line
+        }
+        if wild && r.chance(1, 8) {
+            // a foreign divider start in front of the real one, on the same line
+            v.extend_from_slice(*r.pick(&[&b"~~~~~~~~EXECDIVIDER::X::0::0 "[..], &b"~~~~~~~~EXECDIVIDER::"[..], &b"~~~~~~~~EXECDIVIDER::SALT::"[..]]));
         }
         v.extend_from_slice(&d);
     }
@@ -786,7 +849,7 @@ pub fn run(ctx: &Ctx, prop: &str) {
             Some(eval_op(&env, &format!("render - {} {} - 0 {}", thex("/tmp/state dir/.state.x"), thex("exec1"), thex(e))))
         });
         let values = ["exec1", "/tmp/s", "", "{name}", "{shell_expression}", "a{persist_state}b", "{excluded_variables}", "{state_directory}", "{shell_", "expression}", "\u{e9} x"];
-        par_stream(ctx, "render-random", if thorough { 6000 } else { 600 }, false, |idx| {
+        par_stream(ctx, "render-random", if thorough { 6000 } else { 400 }, false, |idx| {
             let mut r = Rng::fork(seed, 2, idx);
             let n = r.range(0, 5);
             let e: String = (0..n).map(|_| r.pick(&toks).clone()).collect();
@@ -816,7 +879,7 @@ pub fn run(ctx: &Ctx, prop: &str) {
 
     // 4. the divider parser through a replay shell
     {
-        par_stream(ctx, "execall-replay", if thorough { 12000 } else { 1500 }, false, |idx| {
+        par_stream(ctx, "execall-replay", if thorough { 12000 } else { 1000 }, false, |idx| {
             let mut r = Rng::fork(seed, 4, idx);
             let n = r.range(0, 3);
             let combined = r.chance(1, 3);
@@ -831,9 +894,9 @@ pub fn run(ctx: &Ctx, prop: &str) {
             // keep_crlf is a setting of the test cases too: without test cases CR LF pairs are replaced before the
             // streams reach the divider parser (the op holds the streams as the parser sees them)
             let (so, se) = if n == 0 { (crlf_spec(&so), crlf_spec(&se)) } else { (so, se) };
-            Some(eval_op(&env, &format!("execall {n} {} {skip} {script_exit} {} {}", combined as u8, hex(&so), hex(&se))))
+            Some(eval_op(&env, &format!("execall {n} {} {skip} {script_exit} {} {} {}", combined as u8, thex(GEN_SALT), hex(&so), hex(&se))))
         });
-        par_stream(ctx, "rmdiv-timeout", if thorough { 120 } else { 32 }, false, |idx| {
+        par_stream(ctx, "rmdiv-timeout", if thorough { 120 } else { 24 }, false, |idx| {
             let mut r = Rng::fork(seed, 5, idx);
             let so = gen_stream(&mut r, 2, true);
             Some(eval_op(&env, &format!("rmdiv {}", hex(&so))))
@@ -844,7 +907,7 @@ pub fn run(ctx: &Ctx, prop: &str) {
     {
         let mut toks: Vec<String> = vec!["echo a".into(), "\n".into(), "".into(), "$?".into(), "~~~~~~~~EXECDIVIDER::X::0::0".into(), "echo \"q\" 'r'".into(), " ".into(), "\u{e9}".into(), "exit 3".into()];
         toks.extend(PLACEHOLDERS.iter().map(|s| s.to_string()));
-        par_stream(ctx, "compile-capture", if thorough { 3000 } else { 300 }, false, |idx| {
+        par_stream(ctx, "compile-capture", if thorough { 3000 } else { 200 }, false, |idx| {
             let mut r = Rng::fork(seed, 6, idx);
             let n = r.range(0, 4);
             let exprs: Vec<String> = (0..n)
@@ -877,14 +940,14 @@ pub fn run(ctx: &Ctx, prop: &str) {
             Some(eval_op(&env, &format!("bash {mode} 0 - 80 {t}")))
         });
         // all exit codes
-        let codes: Vec<usize> = if thorough { (0..256).collect() } else { (0..256).step_by(5).chain([1, 2, 79, 80, 81, 126, 127, 128, 254].into_iter()).collect() };
+        let codes: Vec<usize> = if thorough { (0..256).collect() } else { (0..256).step_by(17).chain([1, 2, 79, 80, 81, 126, 127, 128, 254].into_iter()).collect() };
         par_stream(ctx, "bash-exit-codes", (codes.len() * 2) as u64, thorough, |idx| {
             let i = idx as usize;
             let mode = if i % 2 == 0 { "p" } else { "s" };
             let c = codes[i / 2];
             Some(eval_op(&env, &format!("bash {mode} 0 - 80 6f0a:65:{c},{}:-:0", hex(b"next"))))
         });
-        par_stream(ctx, "bash-sequences", if thorough { 2500 } else { 320 }, false, |idx| {
+        par_stream(ctx, "bash-sequences", if thorough { 2500 } else { 200 }, false, |idx| {
             let mut r = Rng::fork(seed, 7, idx);
             let mode = if r.chance(1, 2) { "p" } else { "s" };
             let combined = r.chance(1, 3);
@@ -943,7 +1006,7 @@ pub fn run(ctx: &Ctx, prop: &str) {
 
     // 7. malformed ops: the driver must reject them
     {
-        let ops = ["render 0 0", "crlf zz", "execall x 0 80 0 - -", "bash q 0 - 80 _", "replace 61", "rout 2 0 -", "compile 0 - _", "bash s 0 - 80 61:62"];
+        let ops = ["render 0 0", "crlf zz", "execall x 0 80 0 - - -", "bash q 0 - 80 _", "replace 61", "rout 2 0 -", "compile 0 - _", "bash s 0 - 80 61:62"];
         ctx.run_stream("malformed", ops.len() as u64, true, |idx| Some(bad(ops[idx as usize])));
     }
 }
